@@ -451,7 +451,7 @@ def generic_in_process(desc):
         return "violation", f"raised {type(ex).__name__}: {ex}"
     if "raises" in exp:
         return "violation", "returned normally"
-    if "qcow2_meta" in exp or "snapshots" in exp:
+    if "qcow2_meta" in exp or "snapshots" in exp or "hyperv_tree" in exp:
         return replay.run_replay(desc)
     if "members" in exp:
         ok = [list(x) for x in res] == exp["members"]
